@@ -1,5 +1,5 @@
 // govc:pkg .
-// govc:bound third test: 4 WHERE-side analytic calls with OVER (PARTITION BY alone, with WHEN) x 10 (thorough: 40) feeds of 14 rows over 3 partitions: which rows of a partition pass, interleaved vs. fed alone; second test: 4 queries with two or three analytic fields x 10 (thorough: 40) feeds, every column compared with the same field queried alone; first test: 14 analytic SELECT items x 40 (thorough: 160) random feeds of 12 rows over 3 partitions (NULL values included): each partition's output sequence interleaved vs. fed alone, EmitSync vs. Emit + synchronous sink, and lag / acc_sum / acc_count / acc_max / latest against their definitions
+// govc:bound third test: 6 WHERE-side analytic calls with OVER (PARTITION BY alone, with WHEN, the column back-quoted) x 10 (thorough: 40) feeds of 14 rows over 3 partitions: which rows of a partition pass, interleaved vs. fed alone; second test: 4 queries with two or three analytic fields x 10 (thorough: 40) feeds, every column compared with the same field queried alone; first test: 14 analytic SELECT items x 40 (thorough: 160) random feeds of 12 rows over 3 partitions (NULL values included): each partition's output sequence interleaved vs. fed alone, EmitSync vs. Emit + synchronous sink, and lag / acc_sum / acc_count / acc_max / latest against their definitions
 // govc:also C12
 // Bounded stand-in (NOT a proof) for the wiring above the state machines under contract (partition key derivation, engine
 // dispatch, projection): partitions must not influence each other and both API paths must agree.
@@ -313,6 +313,8 @@ func TestGovcBounded_where_analytic_partitions(t *testing.T) {
 		"lag(v) OVER (PARTITION BY k WHEN v > 0) < v",
 		"had_changed(true, v) OVER (PARTITION BY k WHEN v > 1)",
 		"v > lag(v, 1, 0) OVER (PARTITION BY k WHEN v > 0)",
+		"lag(v) OVER (PARTITION BY `k`) < v", // a back-quoted partition column
+		"lag(v) OVER (PARTITION BY `k` WHEN v > 0) < v",
 	}
 	cases, fails := 0, 0
 	for _, w := range wheres {
